@@ -616,6 +616,32 @@ func (vc *VC) specCall(env *SpecEnv, e *SCall) Val {
 				vc.fail("spec: as(): type %s not found in the loaded packages", lit.Val)
 			}
 			return Val{x.T, nil}
+		case "unbox":
+			// unbox(x, "int64" | "int" | "float64" | "bool" | "string" | "[]byte"): the value held by
+			// the interface value x (meaningful where typeis(x, that type) holds)
+			x := vc.specEval(env, e.Args[0])
+			if lit, ok := e.Args[1].(*SLit); ok {
+				var t types.Type
+				switch lit.Val {
+				case "int64":
+					t = types.Typ[types.Int64]
+				case "int":
+					t = types.Typ[types.Int]
+				case "float64":
+					t = types.Typ[types.Float64]
+				case "bool":
+					t = types.Typ[types.Bool]
+				case "string":
+					t = types.Typ[types.String]
+				case "[]byte":
+					t = types.NewSlice(types.Universe.Lookup("byte").Type())
+				}
+				if t != nil {
+					return Val{vc.unboxAs(env.st, x.T, nil, t), t}
+				}
+			}
+			vc.fail("spec: unbox(x, \"basic type\") needs a basic type name")
+			return Val{IntLit(0), nil}
 		case "fresh":
 			// fresh(x): the object x refers to (or the backing array of slice x) was allocated by
 			// this activation: no caller, callee-retained structure or other thread can reach it
@@ -661,7 +687,7 @@ func (vc *VC) specCall(env *SpecEnv, e *SCall) Val {
 		case "typeis":
 			// typeis(x, "T") : dynamic type tag check by Go type string
 			x := vc.specEval(env, e.Args[0])
-			ts := normKey(e.Args[1].(*SLit).Val)
+			ts := strings.ReplaceAll(e.Args[1].(*SLit).Val, "rq/", modPath+"/")
 			vc.ensureDyn()
 			tag, ok := typeTags[ts]
 			if !ok {
